@@ -12,7 +12,8 @@ sys.path.insert(0, HERE)
 import assemble  # noqa: E402
 
 IGNORED_CHECKS = [r'^NaN on ', r'^arithmetic overflow on floating-point']
-KANI_TARGET = os.path.join(VERIF, '.cache', 'kani-target')
+# E57_TARGET_SUFFIX: separate build directories for matrix runs that evaluate several trees side by side (registered checks run one at a time)
+KANI_TARGET = os.path.join(VERIF, '.cache', 'kani-target' + os.environ.get('E57_TARGET_SUFFIX', ''))
 
 
 def parse_group(name):
